@@ -54,3 +54,14 @@ Proof.
   destruct (covered (ients B) x), (lab_at (ients A) x); reflexivity.
 Qed.
 Print Assumptions C10_difference_intersection_partition.
+
+(* mergeLabels(A,B) explicitly: one entry per interval of A that some interval of B overlaps, with A's extent and
+   the label a(b1,b2,...) listing the overlapping B labels in time order; name and span as documented *)
+Theorem C10_merge_labels_explicit A B :
+  wf_itier A -> wf_itier B ->
+  merge_labels_i A B =
+  Ok (mkIT (iname A ++ DASH ++ iname B) (merge_entries (ients A) (ients B))
+           (hull_min (merge_entries (ients A) (ients B)) (imin A))
+           (hull_max (merge_entries (ients A) (ients B)) (imax A))).
+Proof. exact (merge_labels_explicit A B). Qed.
+Print Assumptions C10_merge_labels_explicit.
